@@ -156,6 +156,7 @@ Replay(c, sub, existed, ver, n) ==
          \* [MQTT-3.3.1-8], MQTT 5 3.8.3.1: a message sent because a subscription was made has RETAIN = 1
          retains |-> IF Dev("replay_retain_follows_rap") THEN {sub.o.rap} ELSE {TRUE},
          ids |-> {}, anyids |-> TRUE,
+         t0 |-> 0, L |-> 0, orig |-> 0,      \* a replayed message starts a fresh lifetime: nothing is demanded (C12)
          opt |-> FALSE, carried |-> FALSE] : t \in {x \in DOMAIN ret : Match(sub.lv, ret[x].lv)}}
 
 \* SUBSCRIBE with the topics in order (ts: sequence of [n, share, lv, sys, qos, nl, rap, rh]); the broker owes a
@@ -235,13 +236,20 @@ Matched(src, m) == NonSharedHits(src, m.lv, m.sys) # {} \/ Groups(m.lv) # {}
 \* C13: a copy larger than the Maximum Packet Size of the session's current connection is dropped whole
 Fits(c, m) == ~Online(c) \/ conn[sess[c].online].maxpkt = 0 \/ m.fsize <= conn[sess[c].online].maxpkt
 
+\* C12: the lifetime of a message in seconds (0 = unlimited): the publisher's Message Expiry Interval, capped by the
+\* configured maximum message lifetime when that is not 0 (no interval => the configured one)
+Lifetime(m) == IF cfg.msgexpiry > 0
+                 THEN (IF m.msgexp > 0 /\ m.msgexp <= cfg.msgexpiry THEN m.msgexp ELSE cfg.msgexpiry)
+                 ELSE m.msgexp
+
 Publication(src, m) ==
   LET cps  == {x \in Copies(src, m) : Keeps(x.c, x.qos) /\ Fits(x.c, m)}
       idx  == ctr.pub + 1
       mk(x) == [key |-> x.key, tag |-> m.tag, topic |-> m.topic, src |-> src, idx |-> idx, qos |-> x.qos,
-                retains |-> x.retains, ids |-> x.ids, anyids |-> FALSE, opt |-> FALSE, carried |-> FALSE]
+                retains |-> x.retains, ids |-> x.ids, anyids |-> FALSE, opt |-> FALSE, carried |-> FALSE,
+                t0 |-> m.ms, L |-> Lifetime(m), orig |-> m.msgexp]
       gmk(g) == [share |-> g[1], n |-> g[2], tag |-> m.tag, topic |-> m.topic, src |-> src, idx |-> idx,
-                 mqos |-> m.qos, retain |-> m.retain,
+                 mqos |-> m.qos, retain |-> m.retain, t0 |-> m.ms, L |-> Lifetime(m), orig |-> m.msgexp,
                  members |-> {[c |-> s.c, qos |-> s.o.qos, rap |-> s.o.rap, id |-> s.o.id] :
                                 s \in {x \in subs : x.share = g[1] /\ x.n = g[2]}}]
   IN
@@ -335,12 +343,26 @@ PidOK(c, p) == IF p.qos = 0 THEN TRUE
 Resend(c) == {e \in Infl(c) : e.rs}
 IsNextResend(c, e) == e \in Resend(c) /\ \A x \in Resend(c) : e.n <= x.n
 
+\* C12.  Times are harness milliseconds: t0 was logged before the publication was written, p.ms after the delivery
+\* was read, so the message waited at most p.ms - t0.  LateMs / the one-second slack absorb logging latency.
+LateMs == 400
+Expired(ob, ms) == ob.L > 0 /\ ms > ob.t0 + ob.L * 1000 + LateMs
+ExpiryOK(k, ob, p) ==
+  /\ ~Expired(ob, p.ms)                                  \* never delivered once its lifetime has elapsed
+  /\ (conn[k].ver = 5 /\ ob.orig > 0) =>                 \* remaining lifetime forwarded: original - whole seconds waited
+        LET w == (p.ms - ob.t0) \div 1000 IN
+        /\ p.msgexp >= 1 /\ p.msgexp <= ob.orig          \* never absent (-1), never more than the original
+        /\ (IF Dev("forwarded_expiry_is_elapsed")
+              THEN TRUE
+              ELSE p.msgexp >= Max(1, Min(ob.orig, ob.L) - w - 1) /\ p.msgexp <= Max(1, ob.orig - w + 1))
+
 \* does obligation ob of session c explain the PUBLISH p read on k ?
 FitsOwed(c, k, ob, p) ==
   /\ ob.tag = p.tag /\ ob.topic = p.topic /\ ob.qos = p.qos /\ p.retain \in ob.retains
   /\ IdsOK(k, p.ids, ob)
   /\ (p.dup => ob.carried)                 \* the first transmission has DUP = 0
   /\ OrderOK(c, ob, p.dup)
+  /\ ExpiryOK(k, ob, p)
 
 \* does the group obligation g explain it, c being member mb ?
 FitsGroup(c, k, g, mb, p) ==
@@ -348,6 +370,7 @@ FitsGroup(c, k, g, mb, p) ==
   /\ p.qos = Min(g.mqos, mb.qos) /\ p.retain = (g.retain /\ mb.rap)
   /\ (conn[k].ver = 5 => SeqToSet(p.ids) = {mb.id} \ {0}) /\ (conn[k].ver # 5 => p.ids = <<>>)
   /\ (p.dup \/ g.idx >= Get(last, <<c, g.src>>, 0))
+  /\ ExpiryOK(k, g, p)
 
 \* C03: retransmissions (DUP = 1) come before anything new on a connection, and nothing new is sent while
 \* something this session is known to hold unacknowledged has not been retransmitted
@@ -436,7 +459,9 @@ Pingresp(k) ==
 ----------------------------------------------------------------------------
 (* Barrier: the driver has established that the broker has nothing more to say.                       *)
 
-Dischargeable(c) == {ob \in Owed(c) : ~ob.opt}
+Dischargeable(c, ms) == {ob \in Owed(c) : ~ob.opt /\ ~Expired(ob, ms)}
+\* expired copies of an online, unblocked session must have been dropped AND reported (OnMsgDropped) by now
+Unreported(c, ms) == {ob \in Owed(c) : ~ob.opt /\ Expired(ob, ms + 2 * LateMs)}
 
 \* a group copy is parked legitimately only while one of its members is offline (it may be queued there)
 GroupParked(g) == \E mb \in g.members : ~Online(mb.c)
@@ -451,15 +476,30 @@ WindowOf(c, k) == {e \in Infl(c) : e.k = k /\ ~e.rs}
 \* that still await PUBCOMP; the bound itself - WindowOK - counts only what the statement counts.)
 Blocked(c) == Online(c) /\ Cardinality({e \in Infl(c) : ~e.rs}) >= Limit(sess[c].online)
 
-QuietOK ==
-  /\ \A c \in DOMAIN sess : (Online(c) /\ ~Blocked(c)) => Dischargeable(c) = {}
+QuietOK(ms) ==
+  /\ \A c \in DOMAIN sess : (Online(c) /\ ~Blocked(c)) => (Dischargeable(c, ms) = {} /\ Unreported(c, ms) = {})
   /\ \A c \in DOMAIN sess : (Online(c) /\ ~Blocked(c)) => Resend(c) = {}   \* everything unacknowledged was retransmitted
-  /\ \A g \in gowed : GroupParked(g) \/ \E mb \in g.members : Blocked(mb.c)
+  /\ \A g \in gowed : GroupParked(g) \/ Expired(g, ms) \/ \E mb \in g.members : Blocked(mb.c)
   /\ \A k \in DOMAIN conn : conn[k].st = "up" => Ctl(k) = {}
   \* a client that overstepped an advertised limit has been disconnected with the reason code
   /\ \A k \in DOMAIN conn : conn[k].dying # {} => (conn[k].st = "down" /\ conn[k].disc)
 
-Quiet == QuietOK /\ UNCHANGED bvars
+Quiet(ms) == QuietOK(ms) /\ UNCHANGED bvars
+
+\* OnMsgDropped reported by the broker (hook event): the copy of `tag` queued for session c was dropped.
+\* reason "expired": only for a copy whose lifetime is (about to be) over; "toolarge": only for a copy larger than the
+\* subscriber's Maximum Packet Size (those are not owed in the first place, see Fits); "full": the session queue is full.
+EarlyMs == 150
+Dropped(c, tag, reason, ms) ==
+  /\ \/ /\ reason = "expired"
+        /\ \E ob \in Owed(c) : /\ ob.tag = tag /\ ob.L > 0 /\ ms >= ob.t0 + ob.L * 1000 - EarlyMs
+                                /\ owed' = [owed EXCEPT ![c] = @ \ {ob}]
+     \/ /\ reason = "toolarge"
+        /\ owed' = owed
+     \/ /\ reason = "full"
+        /\ Cardinality(Owed(c)) >= cfg.maxqueued
+        /\ \E ob \in Owed(c) : ob.tag = tag /\ owed' = [owed EXCEPT ![c] = @ \ {ob}]
+  /\ UNCHANGED <<cfg, subs, conn, sess, gowed, ctl, ret, unack, infl, last, ctr>>
 
 ----------------------------------------------------------------------------
 (* State invariants (evaluated on every state of every validated trace and in the model-checking runs) *)
